@@ -15,6 +15,15 @@ changes variable *types*).
 import Rooc.Proofs.WFFinal
 import Rooc.Proofs.WFBounds
 import Rooc.Proofs.WFExamples
+import Rooc.Proofs.WFCompile
+import Rooc.Proofs.WFCompileExamples
+import Rooc.Proofs.WFAnalyzerProper
+import Rooc.Proofs.RatInst
+import Rooc.Proofs.WFPerm
+import Rooc.Proofs.WFRel2An
+import Rooc.Proofs.RefLemmas
+import Rooc.Proofs.WFOccur
+import Rooc.Proofs.WFCompileOrdered
 namespace Rooc.Props.C08
 open Rooc Rooc.Lin Rooc.WFDedup Rooc.Lin.Examples
 
@@ -206,9 +215,9 @@ theorem finite_out_partial {K : Type} [ExactField K] {m : Model (Ext K)} {b : Bo
   have hp := closed_isFinite K
   simp only [FiniteLits, Bool.and_eq_true] at hfin
   obtain ⟨obj, s, _, hok, hobj, rfl⟩ :=
-    linearizeWith_run (N := fun _ => True) trivial hp (simpOK_of_closed hp) hfin.1
-      (stOK_init_of_finiteLits b d (by simp only [FiniteLits, Bool.and_eq_true]; exact hfin)) h
-  exact finite_of_ok hp hok hobj
+    linearizeWith_run (N := fun _ => True) trivial hp (simpOK_of_closed hp) (bTrack_off _) hfin.1
+      ⟨stOK_init_of_finiteLits b d (by simp only [FiniteLits, Bool.and_eq_true]; exact hfin), bOK_off _ _⟩ h
+  exact finite_of_ok hp hok.1 hobj
 
 example : ∃ lm, linearizeWith exA exAb exA.domain = .ok lm ∧ FiniteLits exA = true ∧
     (WF.report exA lm).finite = true :=
@@ -315,5 +324,356 @@ theorem missing_bounds_error_blames_unbounded {m : Model α} {b : BoundsMap α} 
 
 example : ¬ (Arith.isFinite (varBounds exCb "x").lower = true ∧ Arith.isFinite (varBounds exCb "x").upper = true) :=
   missing_bounds_error_blames_unbounded missing_bounds_example "x" (by simp) (by decide)
+
+/-! ### 8. the WHOLE compiler `Compile.linearize`
+
+`Compile.linearize m tol maxSteps` = normalise for bounds → `BoundsAnalyzer::analyze` → `enforceable` →
+`apply_to_domain` → `Lin.linearizeWith`.  `apply_to_domain` rewrites variable TYPES only, so the hypotheses
+`DomainNodup / UsedKept / DeclaredIn` of the theorems above are discharged: ONE hypothesis on the source is left,
+`SourceNodup m` (the declared names are pairwise distinct — `Model.domain` is an `IndexMap` in rooc), and
+`FiniteLits m` for the finiteness clause.  Tolerance and step limit of the analyzer are arbitrary. -/
+
+/-- every clause of `WF.report` but finiteness, for the whole compiler and an arbitrary number type:
+strictly sorted duplicate-free variables = domain keys (so every variable has a domain entry and vice versa),
+one coefficient per variable in every row and in the objective, every used source variable present, pairwise
+distinct row names derived from user names only, auxiliaries `$`-prefixed or declared. -/
+theorem compile_report_ok_structural {m : Model α} {tol : α} {maxSteps : Nat} {lm : LinModel α}
+    (hd : SourceNodup m = true) (h : Compile.linearize m tol maxSteps = .ok lm) :
+    (WF.report m lm).ok false = true := by
+  obtain ⟨an, hlin⟩ := compile_ok_linearizeWith h
+  exact report_ok_structural (domainNodup_apply an hd) (usedKept_apply an m) (declaredIn_apply an m) hlin
+
+/-- the clauses that need NO hypothesis at all on the source, for the whole compiler. -/
+theorem compile_lengths_and_names {m : Model α} {tol : α} {maxSteps : Nat} {lm : LinModel α}
+    (h : Compile.linearize m tol maxSteps = .ok lm) :
+    (WF.report m lm).rowLengths = true ∧ (WF.report m lm).objectiveLength = true ∧
+    (WF.report m lm).namesUnique = true ∧ (WF.report m lm).userNamesKept = true ∧
+    (WF.report m lm).sourceVarsPresent = true ∧ (WF.report m lm).auxDisjoint = true := by
+  obtain ⟨an, hlin⟩ := compile_ok_linearizeWith h
+  exact ⟨row_lengths hlin, objective_length hlin, names_unique hlin, user_names_kept hlin,
+    source_vars_present (usedKept_apply an m) hlin, aux_disjoint (declaredIn_apply an m) hlin⟩
+
+/-- the compiled domain is the TIGHTENED source domain (same names, same usage marks, in the same order)
+followed by fresh `$`-auxiliaries, filtered to the used variables: a user variable is never renamed, merged
+with an auxiliary or dropped while used, whatever it is called (hostile names such as `$abs_0`, `$max_1_select_0`
+or `a__2` included — then compilation either does not need that auxiliary or fails, `aux_name_taken_fails`). -/
+theorem compile_domain_is_source_plus_fresh_aux {m : Model α} {tol : α} {maxSteps : Nat} {lm : LinModel α}
+    (hd : SourceNodup m = true) (h : Compile.linearize m tol maxSteps = .ok lm) :
+    ∃ (tight added : List (DomVar α)),
+      tight.map (fun v => (v.name, v.usage)) = m.domain.map (fun v => (v.name, v.usage)) ∧
+      lm.domain = (tight ++ added).filter (fun v => lm.vars.contains v.name) ∧
+      (∀ v ∈ added, v.usage = 1 ∧ WF.isAuxName v.name = true ∧ v.name ∉ m.domain.map (·.name)) ∧
+      (added.map (·.name)).Nodup := by
+  obtain ⟨an, hlin⟩ := compile_ok_linearizeWith h
+  obtain ⟨added, h1, h2, h3⟩ := domain_is_input_plus_fresh_aux (domainNodup_apply an hd) hlin
+  refine ⟨an.applyToDomain m.domain, added, ?_, h1, ?_, h3⟩
+  · simp only [Analyzer.applyToDomain, List.map_map]
+    exact List.map_congr_left (fun d _ => by simp [applyToVar_name', applyToVar_usage'])
+  · intro v hv
+    have := h2 v hv
+    rw [applyToDomain_names] at this
+    exact this
+
+/-- the decidable EXCLUDED REGION of the finiteness clause: the source contains a non-finite literal
+(`Infinity`, `-Infinity`, `NaN` as a constant of the objective or of a constraint).  This is the recorded known
+finding `C08-infinity-literal` and it is the ONLY exclusion: outside it (`compile_finite_out`) every emitted
+constant is finite with no further hypothesis, inside it `compile_nonfinite_region_is_needed` exhibits a model
+whose compiled row is `[+inf] >= NaN`. -/
+def NonFiniteLiteralRegion (m : Model α) : Bool := !FiniteLits m
+
+/-- outside the excluded region every coefficient, right-hand side and the offset of the compiled model are
+finite — for every tolerance, step limit and bounds analysis result (no hypothesis on declared ranges: a
+declaration `Real(-Infinity, Infinity)` or a derived infinite bound never reaches a row, the exact lowerings
+fail with `MissingFiniteBounds` instead). -/
+theorem compile_finite_out {K : Type} [ExactField K] {m : Model (Ext K)} {tol : Ext K} {maxSteps : Nat}
+    {lm : LinModel (Ext K)} (hfin : NonFiniteLiteralRegion m = false)
+    (h : Compile.linearize m tol maxSteps = .ok lm) : (WF.report m lm).finite = true := by
+  obtain ⟨an, hlin⟩ := compile_ok_linearizeWith h
+  exact finite_out_partial (by simpa [NonFiniteLiteralRegion] using hfin) hlin
+
+/-- the full report for the whole compiler. -/
+theorem compile_report_ok {K : Type} [ExactField K] {m : Model (Ext K)} {tol : Ext K} {maxSteps : Nat}
+    {lm : LinModel (Ext K)} (hd : SourceNodup m = true) (hfin : NonFiniteLiteralRegion m = false)
+    (h : Compile.linearize m tol maxSteps = .ok lm) : (WF.report m lm).ok true = true := by
+  obtain ⟨an, hlin⟩ := compile_ok_linearizeWith h
+  exact report_ok_partial (domainNodup_apply an hd) (usedKept_apply an m) (declaredIn_apply an m)
+    (by simpa [NonFiniteLiteralRegion] using hfin) hlin
+
+/-- a `MissingFiniteBounds` error of the whole compiler names, among the source variables, only variables whose
+range AFTER bound inference (`apply_to_domain`'s input, `an.variableBounds`) is not finite. -/
+theorem compile_missing_bounds_blames_unbounded {m : Model α} {tol : α} {maxSteps : Nat} {vs : List String}
+    (h : Compile.linearize m tol maxSteps = .error (.missingFiniteBounds vs)) :
+    WF.sortedStrict vs = true ∧ ∃ an : Analyzer α, ∀ x ∈ vs, x ∈ m.domain.map (·.name) →
+      ¬ (Arith.isFinite (varBounds (Compile.toLinBounds an.variableBounds) x).lower = true ∧
+         Arith.isFinite (varBounds (Compile.toLinBounds an.variableBounds) x).upper = true) := by
+  rcases compile_error_linearizeWith h with h | ⟨an, hlin⟩
+  · cases h
+  · refine ⟨(missing_bounds_error_global hlin).1, an, ?_⟩
+    intro x hx hd
+    exact missing_bounds_error_blames_unbounded hlin x hx (by rw [applyToDomain_names]; exact hd)
+
+/-- non-vacuity for the whole compiler: `min x s.t. c1: x >= 1`, `x : NonNegativeReal`, compiles (any tolerance,
+step limit 0) and satisfies `SourceNodup` and lies outside the excluded region. -/
+example (tol : Ext Rat) : ∃ lm, Compile.linearize exA tol 0 = .ok lm ∧ SourceNodup exA = true ∧
+    NonFiniteLiteralRegion exA = false ∧ (WF.report exA lm).ok true = true :=
+  ⟨_, exA_compile tol, exA_hyps.1, by simp [NonFiniteLiteralRegion, exA_hyps.2.2.2],
+    compile_report_ok exA_hyps.1 (by simp [NonFiniteLiteralRegion, exA_hyps.2.2.2]) (exA_compile tol)⟩
+
+/-- the excluded region is needed for the whole compiler too: `min x s.t. Infinity * x >= 1` is inside it,
+satisfies `SourceNodup`, compiles, and the compiled row is `[+inf] >= NaN`. -/
+theorem compile_nonfinite_region_is_needed (tol : Ext Rat) :
+    ∃ (m : Model (Ext Rat)) (lm : LinModel (Ext Rat)), SourceNodup m = true ∧ NonFiniteLiteralRegion m = true ∧
+      Compile.linearize m tol 0 = .ok lm ∧ (WF.report m lm).finite = false ∧
+      (WF.report m lm).ok false = true := by
+  refine ⟨exB, _, by decide, ?_, exB_compile tol, exB_not_finite, ?_⟩
+  · simp [NonFiniteLiteralRegion, FiniteLits, exB, infx, allLits, Arith.isFinite, Ext.isFinite]
+  · exact compile_report_ok_structural (by decide) (exB_compile tol)
+
+/-! ### 9. every domain of the compiled model is well-formed
+
+`DomainProper d`: every `Real(lo, hi)` of `d` has `lo` finite or `−inf` and `hi` finite or `+inf` (so no NaN end,
+no `Real(+inf, _)`, no `Real(_, −inf)`); every `NonNegativeReal(lo, hi)` has `lo` FINITE with `0 ≤ lo` and `hi`
+finite or `+inf`; Boolean and `IntegerRange` types carry nothing to check (integer boxes are integral by type:
+`VarType.int` has `Int` endpoints, `apply_to_domain` publishes `toI32 ⌈lo − tol⌉ .. toI32 ⌊hi + tol⌋`).
+`K` is any linearly ordered field. -/
+
+section domains
+variable {K : Type} [Field K] [LinearOrder K] [IsStrictOrderedRing K] [FloorRing K]
+
+/-- the LOWERING keeps domains proper: source entries are copied, and every auxiliary is declared with a proper
+range — `$abs_k : NonNegativeReal(0, max(−lo, hi))` where `[lo, hi]` is the derived range of the operand (proper,
+and `hi > 0` or `lo < 0` in that branch), `$min_k / $max_k : Real(lo, hi)` with the derived range of the retained
+operands, Booleans otherwise.  Rests on the second half of the state invariant (`WFInv.BOK`): every entry of the
+bounds map and every declared type is proper, and `bounds_of` maps proper maps to proper ranges. -/
+theorem lowering_keeps_domains_proper {m : Model (Ext K)} {b : BoundsMap (Ext K)} {d : List (DomVar (Ext K))}
+    {lm : LinModel (Ext K)} (hfin : FiniteLits m = true) (hb : BoundsProper b) (hd : DomainProper d)
+    (h : linearizeWith m b d = .ok lm) : DomainProper lm.domain :=
+  domain_proper hfin hb hd h
+
+/-- for the WHOLE compiler: proper declared ranges and finite literals give proper compiled domains, for every
+finite tolerance (of either sign) and every step limit — bound inference (`analyze`, `enforceable`,
+`apply_to_domain`) publishes proper ranges (`APr.analyze_VBP`: every update is the intersection of a proper entry
+with a candidate built from proper ranges and finite coefficients), and the lowering keeps them. -/
+theorem compile_domains_wellformed {m : Model (Ext K)} {t : K} {maxSteps : Nat} {lm : LinModel (Ext K)}
+    (hdecl : DomainProper m.domain) (hfin : FiniteLits m = true)
+    (h : Compile.linearize m (.fin t) maxSteps = .ok lm) : DomainProper lm.domain :=
+  APr.compile_domain_proper hdecl hfin h
+
+/-- the same, spelled out. -/
+theorem compile_domains_wellformed_clauses {m : Model (Ext K)} {t : K} {maxSteps : Nat} {lm : LinModel (Ext K)}
+    (hdecl : DomainProper m.domain) (hfin : FiniteLits m = true)
+    (h : Compile.linearize m (.fin t) maxSteps = .ok lm) :
+    (∀ v ∈ lm.domain, ∀ lo hi, v.ty = .real lo hi →
+      (lo = .ninf ∨ ∃ x, lo = .fin x) ∧ (hi = .pinf ∨ ∃ x, hi = .fin x)) ∧
+    (∀ v ∈ lm.domain, ∀ lo hi, v.ty = .nnreal lo hi → (∃ x, lo = .fin x) ∧ (hi = .pinf ∨ ∃ x, hi = .fin x)) ∧
+    (∀ v ∈ lm.domain, ∀ lo hi, v.ty = .nnreal lo hi → Ext.le (.fin 0) lo = true) :=
+  domain_proper_clauses (compile_domains_wellformed hdecl hfin h)
+
+end domains
+
+/-- non-vacuity (at `ℚ`, where the theorems' instance is the running one, `fieldExact_rat`): `exA` has proper
+declared ranges and finite literals, compiles, and its compiled domain is proper. -/
+example : ∃ lm : LinModel (Ext ℚ), Compile.linearize exA (.fin 0) 0 = .ok lm ∧ DomainProper (K := ℚ) lm.domain := by
+  have hdecl : DomainProper (K := ℚ) exA.domain := by
+    intro v hv
+    simp only [exA, List.mem_singleton] at hv
+    subst hv
+    exact ⟨rfl, by simp [Arith.le, Ext.le, Arith.zero, Arith.ofInt], Or.inr rfl⟩
+  have hfin : FiniteLits (α := Ext ℚ) exA = true := by
+    simp [FiniteLits, exA, allLits, Arith.isFinite, Ext.isFinite]
+  have hc := exA_compile (.fin 0)
+  have key := @compile_domains_wellformed ℚ _ _ _ _ exA 0 0
+    (assemble exA (Ctx.fromVar "x" Arith.one) exA_final) hdecl hfin
+  rw [fieldExact_rat] at key
+  exact ⟨_, hc, key hc⟩
+
+/-! ### 10. determinism up to the order of the domain map
+
+`Compile.linearize` is a function, so equal inputs give equal outputs; the question is what happens when only the
+ORDER of the declarations changes.  The implementation is checked metamorphically (harness stream
+`domain-permutation`, 0 differences).  Proved here, for every number type (so for `Float` too): every read the
+lowering and the bounds analysis make of the declared domain and of the bounds map is a name LOOKUP, unchanged by a
+permutation of a duplicate-free map; the tail turns two final states that differ by the order of their domains into
+models with the same variables, objective, offset and rows and with permuted domains; and therefore
+(`compile_permutation_invariant`) the whole compiler is invariant: two models that differ only by the order of their
+declarations compile to the same model up to the order of its domain, or fail with the same error.  The proof is a
+relational pass (`Proofs/WFRel2*.lean`): two runs from states related by "same queue, rows and counters, permuted
+duplicate-free domains, bounds maps with equal lookups" stay related and return EQUAL values. -/
+
+/-- every read of the declared domain is permutation-invariant. -/
+theorem domain_reads_permutation_invariant {d d' : List (DomVar α)} (hp : d.Perm d')
+    (hn : (d.map (·.name)).Nodup) :
+    (∀ x, domainType d x = domainType d' x) ∧ (∀ x, isBoolVar d x = isBoolVar d' x) ∧
+    (∀ x, (d.any fun v => v.name == x) = (d'.any fun v => v.name == x)) ∧
+    (∀ c : Ctx α, isBinaryCtx c d = isBinaryCtx c d') ∧
+    (∀ e : Exp α, binaryAffineValue d e = binaryAffineValue d' e) ∧
+    (∀ (l r : Exp α) (c : Cmp), tryNormalize d l c r = tryNormalize d' l c r) :=
+  ⟨domainType_perm hp hn, isBoolVar_perm hp hn, declared_perm hp, isBinaryCtx_perm hp hn,
+    binaryAffineValue_perm hp hn, tryNormalize_perm hp hn⟩
+
+/-- every read of the bounds map depends on the lookup function only. -/
+theorem bounds_reads_lookup_only {b b' : BoundsMap α} (h : ∀ x, lookupB b x = lookupB b' x) :
+    (∀ e : Exp α, boundsOf b e = boundsOf b' e) ∧ (∀ es : List (Exp α), boundsOfList b es = boundsOfList b' es) ∧
+    (∀ e : Exp α, varsWithoutFiniteBounds e b = varsWithoutFiniteBounds e b') :=
+  ⟨boundsOf_ext h, boundsOfList_ext h, varsWithoutFiniteBounds_ext h⟩
+
+/-- the tail: same rows, permuted domains ⇒ same variables, objective, offset, rows; permuted output domain. -/
+theorem tail_permutation_invariant (m : Model α) (obj : Ctx α) {s s' : St α} (hp : s.domain.Perm s'.domain)
+    (hr : s.rows = s'.rows) :
+    (assemble m obj s).vars = (assemble m obj s').vars ∧ (assemble m obj s).objective = (assemble m obj s').objective ∧
+    (assemble m obj s).offset = (assemble m obj s').offset ∧ (assemble m obj s).rows = (assemble m obj s').rows ∧
+    (assemble m obj s).optType = (assemble m obj s').optType ∧
+    (assemble m obj s).domain.Perm (assemble m obj s').domain :=
+  assemble_perm m obj hp hr
+
+example : (assemble exA (Ctx.fromVar "x" Arith.one) exA_final).vars =
+    (assemble exA (Ctx.fromVar "x" Arith.one) { exA_final with domain := exA_final.domain.reverse }).vars :=
+  (tail_permutation_invariant exA _ (s' := { exA_final with domain := exA_final.domain.reverse })
+    (List.reverse_perm _).symm rfl).1
+
+/-- **the lowering is invariant under a permutation of the domain and any re-layout of the bounds map**: same
+compiled model up to the order of its domain (`SameUpToDomainOrder`: equal variables, objective, offset, rows,
+direction; permuted domain), or the same error. -/
+theorem lowering_permutation_invariant (m : Model α) {b b' : BoundsMap α} {d d' : List (DomVar α)}
+    (hp : d.Perm d') (hn : (d.map (·.name)).Nodup) (hb : ∀ x, lookupB b x = lookupB b' x) :
+    match linearizeWith m b d, linearizeWith m b' d' with
+    | .ok lm, .ok lm' => SameUpToDomainOrder lm lm'
+    | .error e, .error e' => e = e'
+    | _, _ => False :=
+  linearizeWith_perm m hp hn hb
+
+/-- **`Compile.linearize` is a function of the model up to the order of the domain map**: models with the same
+direction, objective and constraints whose (duplicate-free) declarations are permutations of each other compile to
+the same model up to the order of its domain, or both fail with the same error — for every tolerance, step limit
+and number type. -/
+theorem compile_permutation_invariant (m m' : Model α) (tol : α) (maxSteps : Nat)
+    (ho : m'.optType = m.optType) (hobj : m'.objective = m.objective) (hc : m'.constraints = m.constraints)
+    (hp : m.domain.Perm m'.domain) (hn : SourceNodup m = true) :
+    match Compile.linearize m tol maxSteps, Compile.linearize m' tol maxSteps with
+    | .ok lm, .ok lm' => SameUpToDomainOrder lm lm'
+    | .error e, .error e' => e = e'
+    | _, _ => False :=
+  AnRel.compile_perm m m' tol maxSteps ho hobj hc hp ((WFList.noDup_iff _).mp hn)
+
+/-- non-vacuity (two declarations, swapped): the model with a user variable `$abs_0` fails with the same
+`VarAlreadyDeclared` whichever way round `x` and `$abs_0` are declared. -/
+example : linearizeWith exD exDb exD.domain.reverse = .error (.varAlreadyDeclared "$abs_0") := by
+  have h := lowering_permutation_invariant exD (b := exDb) (b' := exDb) (List.reverse_perm exD.domain).symm
+    (by decide) (fun _ => rfl)
+  rw [exD_fails] at h
+  revert h
+  cases linearizeWith exD exDb exD.domain.reverse with
+  | ok lm => exact fun h => h.elim
+  | error e => exact fun h => by rw [← h]
+
+/-! ### 11. every variable that OCCURS in the source is a variable of the compiled model
+
+The clause of the property as written ("contains every variable that occurs in the source objective or
+constraints") is `source_vars_present` composed with the front end's marking discipline `Ref.Closed m`
+(decidable): every variable occurring in the objective or in a constraint is declared and carries a usage mark
+(`il_exp.rs` increments the mark at every reference; `Compose.closed_of_logicModel` derives it from the semantic
+contract). -/
+
+/-- every variable the meaning of the source depends on is a variable of the compiled model, for the whole
+compiler and any number type. -/
+theorem compile_occurring_vars_present {m : Model α} {tol : α} {maxSteps : Nat} {lm : LinModel α}
+    (hcl : Ref.Closed m = true) (h : Compile.linearize m tol maxSteps = .ok lm) :
+    ∀ x ∈ Ref.modelVars m, x ∈ lm.vars := by
+  intro x hx
+  have h1 := (compile_lengths_and_names h).2.2.2.2.1
+  simp only [Ref.Closed, List.all_eq_true, List.contains_iff_mem] at hcl
+  have hu := hcl x hx
+  simp only [WF.report, List.all_eq_true, List.contains_iff_mem] at h1
+  exact h1 x (by simpa [Ref.usedNames] using hu)
+
+example (tol : Ext Rat) : "x" ∈ (assemble exA (Ctx.fromVar "x" Arith.one) exA_final).vars :=
+  compile_occurring_vars_present (m := exA) (by decide) (exA_compile tol) "x" (by decide)
+
+/-- … and has a domain entry there: the oracle's clause `WF.occurringPresent` (evaluated on the implementation's output
+for every compiled case — it does not read the usage counters of the source domain, so it also covers a column or a
+domain entry lost by a search in a differently sorted list; harness stream `name-order`: names that differ in letter
+case only, `a B c D`, `x10 x2`, non-ASCII names). -/
+theorem compile_occurring_present {m : Model α} {tol : α} {maxSteps : Nat} {lm : LinModel α}
+    (hd : SourceNodup m = true) (hcl : Ref.Closed m = true) (h : Compile.linearize m tol maxSteps = .ok lm) :
+    WF.occurringPresent m lm = true := by
+  have hok := compile_report_ok_structural hd h
+  simp only [WF.Report.ok, WF.report, Bool.and_eq_true, List.all_eq_true] at hok
+  simp only [WF.occurringPresent, WF.occurring_eq_modelVars, List.all_eq_true, Bool.and_eq_true,
+    List.contains_iff_mem]
+  intro x hx
+  have hv := compile_occurring_vars_present hcl h x hx
+  exact ⟨hv, hok.1.1.1.1.1.1.1.2.1.1 x hv⟩
+
+/-- the order of the variable list is the order of `String` (`<` on the code points = byte order of the UTF-8
+encoding, what `Vec<String>::sort` uses): upper-case letters come before lower-case ones, `x10` before `x2`. -/
+example : WF.sortedStrict ["B", "D", "a", "c", "x10", "x2", "É", "é"] = true := by decide
+
+example (tol : Ext Rat) : WF.occurringPresent exA (assemble exA (Ctx.fromVar "x" Arith.one) exA_final) = true :=
+  compile_occurring_present (by decide) (by decide) (exA_compile tol)
+
+/-! ### 13. every published range is ordered (`lower ≤ upper`) — feasible model or not
+
+§9 excludes `Real(+inf, _)`, `Real(_, −inf)` and NaN ends; here the remaining clause of "domains well-formed":
+`lo ≤ hi` for EVERY entry of the compiled domain.  For the tightened source variables this is a fact about
+`analyze |> enforceable |> apply_to_domain` (C07, agent-bounds: `enforceable_ordered`, plus "the box stays inside
+the declared range" for the `max(lo, 0)` of `NonNegativeReal`); for the `$` auxiliaries it is a third component of
+the state invariant of the lowering (`WFInv.BOK` with the configuration `Lin.ordCfg`): every range of the bounds
+map is ordered, `bounds_of` keeps order, `$abs_k : NonNegativeReal(0, max(−lo, hi))` has `0 ≤ max(−lo, hi)` because
+`lo ≤ hi`.  No feasibility hypothesis (C01's `compile_domains_proper` derives the order from a feasible point). -/
+
+section ordered
+variable {K : Type} [Field K] [LinearOrder K] [IsStrictOrderedRing K] [FloorRing K]
+
+/-- the LOWERING keeps domains ordered. -/
+theorem lowering_keeps_domains_ordered {m : Model (Ext K)} {b : BoundsMap (Ext K)} {d : List (DomVar (Ext K))}
+    {lm : LinModel (Ext K)} (hfin : FiniteLits m = true) (hb : BoundsProper b) (hd : DomainProper d)
+    (hbo : BoundsOrdered b) (hdo : DomainOrdered d)
+    (h : linearizeWith m b d = .ok lm) : DomainOrdered lm.domain :=
+  domain_ordered hfin hb hd hbo hdo h
+
+/-- the WHOLE compiler: distinct declared names, declared ranges proper and ordered (integer ranges within `i32`,
+their type in rooc), finite literals, tolerance `0 ≤ t < 1` (rooc: `1e-9`), any step limit. -/
+theorem compile_domains_ordered {m : Model (Ext K)} {t : K} (h0 : 0 ≤ t) (h1 : t < 1) {maxSteps : Nat}
+    {lm : LinModel (Ext K)} (hnd : (m.domain.map (·.name)).Nodup) (hi : APr.DeclI32 m.domain)
+    (hdecl : DomainProper m.domain) (hord : DomainOrdered m.domain) (hfin : FiniteLits m = true)
+    (h : Compile.linearize m (.fin t) maxSteps = .ok lm) :
+    ∀ v ∈ lm.domain,
+      (∀ lo hi, v.ty = .real lo hi → Ext.le lo hi = true) ∧
+      (∀ lo hi, v.ty = .nnreal lo hi → Ext.le lo hi = true) ∧
+      (∀ lo hi, v.ty = .int lo hi → lo ≤ hi) := by
+  intro v hv
+  have := APr.compile_domain_ordered h0 h1 hnd hi hdecl hord hfin h v hv
+  refine ⟨?_, ?_, ?_⟩ <;> (intro lo hi hty; rw [hty] at this; exact this)
+
+/-- … which is the clause `domain-not-ordered` of the oracle (`WF.domainOrdered`, evaluated on the implementation's
+output for every compiled case whose source has finite literals and ordered declared ranges). -/
+theorem compile_domainOrdered_check {m : Model (Ext K)} {t : K} (h0 : 0 ≤ t) (h1 : t < 1) {maxSteps : Nat}
+    {lm : LinModel (Ext K)} (hnd : (m.domain.map (·.name)).Nodup) (hi : APr.DeclI32 m.domain)
+    (hdecl : DomainProper m.domain) (hord : DomainOrdered m.domain) (hfin : FiniteLits m = true)
+    (h : Compile.linearize m (.fin t) maxSteps = .ok lm) : WF.domainOrdered m lm = true :=
+  APr.domainOrdered_check (APr.compile_domain_ordered h0 h1 hnd hi hdecl hord hfin h)
+
+end ordered
+
+/-- non-vacuity at `ℚ`. -/
+example : ∃ lm : LinModel (Ext ℚ), Compile.linearize exA (.fin 0) 0 = .ok lm ∧ DomainOrdered (K := ℚ) lm.domain := by
+  have hdecl : DomainProper (K := ℚ) exA.domain := by
+    intro v hv
+    simp only [exA, List.mem_singleton] at hv
+    subst hv
+    exact ⟨rfl, by simp [Arith.le, Ext.le, Arith.zero, Arith.ofInt], Or.inr rfl⟩
+  have hord : DomainOrdered (K := ℚ) exA.domain := by
+    intro v hv
+    simp only [exA, List.mem_singleton] at hv
+    subst hv
+    simp [OrdT, Ext.le]
+  have hfin : FiniteLits (α := Ext ℚ) exA = true := by
+    simp [FiniteLits, exA, allLits, Arith.isFinite, Ext.isFinite]
+  have hc := exA_compile (.fin 0)
+  have key := @APr.compile_domain_ordered ℚ _ _ _ _ exA 0 (le_refl _) (by norm_num) 0
+    (assemble exA (Ctx.fromVar "x" Arith.one) exA_final) (by simp [exA]) (by intro d hd lo hi hty; simp [exA] at hd; subst hd; simp at hty)
+    hdecl hord hfin
+  rw [fieldExact_rat] at key
+  exact ⟨_, hc, key hc⟩
 
 end Rooc.Props.C08
